@@ -13,7 +13,7 @@ refuted = sorted(set(re.findall(r"refuted obligation in (\w+)", out)))
 summ = [l for l in out.split("\n") if l.startswith(f"[{P}/") and "harnesses=" in l]
 m = {
  "property": P, "summary": a.get("summary"), "needs_to_manifest": a.get("needs_to_manifest"), "files": a.get("files"),
- "base_commit": "HEAD of /repo when the change was written (pinned 5389603 + fix: commits up to 596d428)",
+ "base_commit": os.environ.get("SEED_BASE", "HEAD of /repo when the change was written (pinned 5389603 + fix: commits up to 596d428)"),
  "produced_by": "independent sub-agent given only the property text and a scratch worktree",
  "confirmed_here": {"how": rd("how.txt"), "suite_with_change": rd("suite_with.txt"), "demo_with_change": rd("demo_with.txt"),
                     "demo_without_change": rd("demo_without.txt"),
